@@ -151,6 +151,11 @@ def history(draw, focus='general', max_ops=24, large=False):
         pool = list(range(1, u))
     ids = draw(st.lists(st.sampled_from(pool), min_size=u, max_size=u))
     strids = draw(st.integers(0, 4)) == 0        # ids are opaque: one universe in five uses strings
+    if not strids and draw(st.integers(0, 5)) == 0:
+        import sys as _sys
+        big = draw(st.sampled_from([_sys.maxsize, 0, -1, 2 ** 70]))     # extreme ids, incl. the one the hidden WBS root uses
+        victim = draw(st.sampled_from(pool))
+        ids = [big if i == victim else i for i in ids]
     pre = draw(_prefix())
     if large:
         # populate: most tasks attached below the previous one or an earlier one (depth up to ~10), a few roots in WBSs
